@@ -24,7 +24,7 @@ def script(name, who):
         "txpk": ["begin", "insert into d0.s0.pk values (7)", "commit"],
         "mergefail": ["merge into d0.s0.shared using (select v from no_such_source) s on shared.v = s.v when not matched then insert (v) values (s.v)"],
         "nodbsel": [f"insert into d0.s0.shared values ({who})", f"select {who} * 1000 as w from d0.s0.shared where v = {who}", f"select {who} * 1000 + 1 as w"],
-        "conn": [], "connother": [], "readinfo": ["select count(*) from information_schema.tables where table_schema = 'S1'"], "comment": [f"comment on table d0.s0.shared is 'by{who}'"],
+        "conn": [], "connother": [], "connlow": ["select 1"], "connup": ["select 1"], "readinfo": ["select count(*) from information_schema.tables where table_schema = 'S1'"], "comment": [f"comment on table d0.s0.shared is 'by{who}'"],
     }[name]
 
 
@@ -41,11 +41,13 @@ def run_pair(pair, first, p1, p2, free=False, nthreads=2):
         # hand-over points: before every engine call, including the calls that collect a result (execute and fetch are two calls)
         engine.install(fs, before=lambda n, sql, owner: sc.yield_point(), fetch_points=True)
     errs, partial, foreign = [], [], []
-    CONNECT_PAIRS = ("none|none", "conn|connother", "none|readinfo")
+    CONNECT_PAIRS = ("none|none", "conn|connother", "none|readinfo", "connlow|connup")
 
     def open_session(name):
         if name == "nodbsel":
             return fs.connect()                 # no current database: every name is fully qualified
+        if name in ("connlow", "connup"):
+            return fs.connect("d9" if name == "connlow" else "D9", "s9" if name == "connlow" else "S9")
         if name in ("ctmeta", "readmeta"):
             return fs.connect("D0", "S0")       # metadata views read the side tables of the CURRENT database (see C09)
         return fs.connect("D1", "S2" if name == "connother" else "S1")
@@ -94,7 +96,7 @@ def run_pair(pair, first, p1, p2, free=False, nthreads=2):
             "foreign": bool(foreign), "vsum": int(vsum)}, errs
 
 
-def isolated(pair, first, p1, p2, limit=60):
+def isolated(pair, first, p1, p2, limit=60, free=False, nthreads=2):
     """one schedule in a forked child: module-level state of the implementation (locks, caches) and threads that never
     return do not leak into the next schedule; a child that does not answer in time is killed and counts as a hang"""
     import json
@@ -108,7 +110,8 @@ def isolated(pair, first, p1, p2, limit=60):
         code = 0
         try:
             os.close(r)
-            obs, _errs = run_pair(pair, first, p1, p2)
+            obs, errs = run_pair(pair, first, p1, p2, free=free, nthreads=nthreads)
+            obs["messages"] = errs[:3]
             os.write(w, json.dumps(obs).encode())
         except BaseException:  # noqa: BLE001
             code = 1
@@ -132,7 +135,10 @@ def isolated(pair, first, p1, p2, limit=60):
             pass
         os.waitpid(pid, 0)
     if buf:
-        return json.loads(buf.decode())
+        out = json.loads(buf.decode())
+        if not free:
+            out.pop("messages", None)
+        return out
     return {"errs": -1, "hang": True, "rows": -1, "tabs": -1, "schemas": -1, "partial": False, "foreign": False, "vsum": -1}
 
 
@@ -185,18 +191,18 @@ class C19(Prop):
         return ev
 
     def extra_checks(self, tier, seed, run):
-        if tier != "thorough":
-            return
+        # free-running threads (no scheduler): races INSIDE an engine call or in pure Python between calls are out of the
+        # deterministic schedules' reach.  Exploration: a clean run proves nothing, a failing one is a violation.
         bad = 0
         n = 0
-        for rep in range(30):
-            for pair in ("ins|ins", "none|none", "merge|merge"):
-                obs, errs = run_pair(pair, 1, 0, 0, free=True, nthreads=16)
+        for rep in range(30 if tier == "thorough" else 4):
+            for pair in ("ins|ins", "none|none", "merge|merge", "connlow|connup"):
+                obs = isolated(pair, 1, 0, 0, limit=120, free=True, nthreads=16)
                 n += 1
-                want_rows = {"ins|ins": 16, "none|none": 0, "merge|merge": 16}[pair]
+                want_rows = {"ins|ins": 16, "none|none": 0, "merge|merge": 16, "connlow|connup": 0}[pair]
                 if obs["errs"] or obs["hang"] or obs["rows"] != want_rows:
                     bad += 1
-                    run.notes.append(f"free-running {pair}: {obs} {errs[:2]}")
+                    run.notes.append(f"free-running {pair}: {obs}")
         run.extra_cov["free_running_16_thread_runs"] = n
         if bad:
             run.violations.append({"tid": "free-running", "verdict": {"v": "fail", "at": 1, "got": run.notes[-3:], "want": ["no error, no hang, no lost insert"]},
